@@ -3,18 +3,18 @@ pub mod writer;
 use super::port::{self, SoapPort};
 use crate::{
     error::{WriterError, WriterResult},
-    model::{Namespace, TryFromNode, doc::RustDocument, field::resolve_type, node::RustNode},
+    model::{Namespace, TryFromNode, doc::RustDocument, field::resolve_type, node::RustNode, ordered_map::OrderedMap},
 };
 use reqwest::Url;
 use roxmltree::Node;
-use std::{collections::HashMap, rc::Rc};
+use std::rc::Rc;
 
 pub type XmlName = String;
 pub type SoapAction = Url;
 
 pub struct SoapBinding {
     pub name: XmlName,
-    pub operations: HashMap<XmlName, SoapOperation>,
+    pub operations: OrderedMap<XmlName, SoapOperation>,
     pub target_namespaces: Vec<Rc<Namespace>>,
 }
 
@@ -65,7 +65,7 @@ impl<'n> TryFromNode<'n> for SoapBinding {
                 let opp = read_soap_operation(o, doc, &port_type_node, &operation_name)?;
                 Ok((operation_name, opp))
             })
-            .collect::<WriterResult<HashMap<XmlName, SoapOperation>>>()?;
+            .collect::<WriterResult<OrderedMap<XmlName, SoapOperation>>>()?;
 
         let target_namespaces = doc.target_namespaces.clone();
         Ok(SoapBinding {
